@@ -111,6 +111,12 @@ def main():
         alt[kx], alt[ky] = prob["layout"][ky], prob["layout"][kx]
     os.makedirs(os.path.join(OUT, "alt"), exist_ok=True)
     put(os.path.join(OUT, "alt", "Probhat.json"), {"info": prob.get("info", {}), "layout": alt}, ensure_ascii=False)
+    # another VALID database directory: a dictionary of a few words, the bundled suffix table, no auto-correct entries
+    # (C05: a second context over other data files must not decide what the first one loads)
+    os.makedirs(os.path.join(OUT, "altdb"), exist_ok=True)
+    put(os.path.join(OUT, "altdb", "dictionary.json"), {"a": ["আমার"], "k": ["কথা"], "s": ["শেষ"]}, ensure_ascii=False)
+    put(os.path.join(OUT, "altdb", "suffix.json"), json.load(open(os.path.join(REPO, "data", "suffix.json"), encoding="utf-8")), ensure_ascii=False)
+    put(os.path.join(OUT, "altdb", "autocorrect.json"), {}, ensure_ascii=False)
     # layouts as character sequences (TLA+ cannot take a string apart): {entry: [chars]}
     for name, l in (("probhat", prob["layout"]), ("synth", lay)):
         put(os.path.join(OUT, name + "_chars.json"), {k: list(v) for k, v in l.items()}, ensure_ascii=False)
